@@ -13,6 +13,12 @@ CHECKS = {
  'C03': ('E1', 'exploration', 'model-based property testing with model-aimed budgets (validity predicate: cap, budget, progress)',
          'Batch-read dominated histories with budgets computed from the model (0, 1, len(next)±1, sum(next k)±1, usize::MAX) at generated cursor positions; validity predicate over every result.',
          'Progress is judged against the FIFO model; a content divergence (C01) ends the case without verdict.', '§5 C03'),
+ 'C06': ('E1', 'exploration', 'stateful model-based property testing with restart events (fresh process / in-process) and wall-clock regression between lifetimes',
+         'Generated histories with 1..n reopen events, rejected operations and payloads from 0 B to 25 MiB; in StrictlyAtOnce mode the FIFO model simply ignores reopen events, in AtLeastOnce mode a candidate-set model allows the cursor to move back but never forward.',
+         'Clean shutdown is a normal process exit or drop after all appends returned; durability below the page cache is C10.', '§5 C06'),
+ 'C17': ('E1', 'exploration', 'model-based property testing of marker histories with reopen at generated delays',
+         'Histories over append/mark_clean/mark_dirty/is_clean/sleep/reopen with a probe of every topic after each reopen against a boolean-per-topic model; reopen happens at 0..250 ms after the last call, in a fresh process or in-process.',
+         'After a failed append or an empty batch the marker state is unspecified and the model accepts either value until the next defining call.', '§5 C17'),
  'C15': ('E1', 'exploration', 'model-based property testing with count probes after every operation',
          'Count and count-map probes after every operation of generated histories with rejected operations, peeks, offset reads and restarts, compared with appended-consumed of the FIFO model.',
          'Counts after an AtLeastOnce restart are not judged.', '§5 C15'),
